@@ -36,7 +36,7 @@ def expand(case, mode, rng, trunc_at=None, onebyte=False):
     c = {"id": "%s-%s" % (case["id"], mode), "mode": mode, "plugins": []}
     for p in case["plugins"]:
         q = dict(p)
-        q["files"] = PATHS.get(p["gen"], PATHS["ok"])(p["name"])
+        q["files"] = PATHS.get(p["gen"], PATHS["ok"])(p["name"] + p.get("inst", ""))
         q["truncAt"] = trunc_at if trunc_at is not None else rng.randrange(0, 40)
         q["onebyte"] = onebyte or rng.random() < 0.2
         c["plugins"].append(q)
@@ -103,6 +103,22 @@ def run(ctx):
         cases = [expand(c, "inproc", rng) for c in pick]
         cli = rng.sample(base, min(len(base), 60 if ctx.quick() else 1500))
         cases += [expand(c, "cli", rng) for c in cli]
+        # the same plugin asked for more than once (-p "p1" -p "p1 --inst=2"): told apart by position only
+        for c in rng.sample(base, min(len(base), 60 if ctx.quick() else 600)):
+            if len(c["plugins"]) < 2:
+                continue
+            d = {"id": c["id"] + "-samename", "plugins": [dict(p, name="p1", **({"inst": str(i + 1)} if i else {}))
+                                                          for i, p in enumerate(c["plugins"])]}
+            cases.append(expand(d, "inproc", rng))
+            if rng.random() < 0.3:
+                cases.append(expand(d, "cli", rng))
+        for n in (2, 3):
+            for gens in (["ok"] * n, ["samepath"] * n, ["ok"] * (n - 1) + ["nested"], ["samepath", "ok", "samepath"][:n], ["nested"] * n):
+                d = {"id": "samename-%d-%s" % (n, "-".join(gens)),
+                     "plugins": [dict({"name": "p1", "hs": "ok", "gen": g, "bye": "ok"}, **({"inst": str(i + 1)} if i else {}))
+                                 for i, g in enumerate(gens)]}
+                cases.append(expand(d, "inproc", rng))
+                cases.append(expand(d, "cli", rng))
         # frames under arbitrary segmentation: truncation at every byte offset, 1-byte writes, oversize prefix
         offs = range(0, 70, 7) if ctx.quick() else range(0, 120)
         for k in offs:
